@@ -388,7 +388,7 @@ def check_one_shot_state(model, rep, R='C12.state'):
 
 def check(model, rep):
     from checks.solver_common import absorb_arith, TIME_ARITH, EULER_ARITH, KIN_ARITH, TORQUE_ARITH
-    absorb_arith(model, rep, 'C12.dep.arith', TIME_ARITH + EULER_ARITH)      # a rerun starts from the same constants only if the step's arithmetic leaves them alone
+    absorb_arith(model, rep, 'C12.dep.arith', TIME_ARITH + EULER_ARITH, solver_log=True)      # a rerun starts from the same constants only if the step's arithmetic leaves them alone
     rep.explain('C12: on the solver IR the continuation branch of Solver.run must reach the stepping loop without writing '
                 'element state, recording, appending an instant or re-initialising solver state with constants, and step from '
                 'Powertrain.time[-1] with unit-aware arithmetic; every Solver field that run() both writes and reads must be '
